@@ -52,6 +52,9 @@ pub struct Config {
     /// R-entry: `M.entry(K).or_insert(V)` -> `M.vx_entry_or_insert(K, V)` (prelude: std's documented meaning -- the value stored
     /// for K, V being inserted first when K is absent; the intermediate `Entry` holds a `&mut` to the map inside a struct)
     pub rentry: bool,
+    /// R-opaquearg: a closure literal passed to one of these functions is replaced by `vx_opaque_closure()` (its body is under
+    /// contract in a sibling item; here only the shape of the surrounding code is checked)
+    pub opaque_closure_args: Vec<String>,
     pub state_methods: Vec<String>,
     pub state_calls: Vec<String>,
     pub state_arg: String,
@@ -88,6 +91,7 @@ impl Config {
             ralloc: v["ralloc"].as_bool().unwrap_or(false),
             rrangeiter: v["rrangeiter"].as_bool().unwrap_or(false),
             rentry: v["rentry"].as_bool().unwrap_or(false),
+            opaque_closure_args: strs(&v["opaque_closure_args"]),
             mirror: v["mirror"]
                 .as_object()
                 .map(|m| m.iter().map(|(k, t)| (k.clone(), t.as_str().unwrap_or("").to_string())).collect())
@@ -1007,6 +1011,23 @@ impl<'a, 'ast> Visit<'ast> for Rewriter<'a> {
     }
 
     fn visit_expr_call(&mut self, c: &'ast ExprCall) {
+        if !self.cfg.opaque_closure_args.is_empty() {
+            let f = norm(&self.sf.slice(self.r(c.func.span())).to_string());
+            if self.cfg.opaque_closure_args.iter().any(|p| f == *p) {
+                let mut done = false;
+                for a in c.args.iter() {
+                    if let Expr::Closure(cl) = a {
+                        let r = self.r(cl.span());
+                        self.edits.replace(r, vec![Piece::Lit("vx_opaque_closure()".into())], "R-opaquearg");
+                        self.note("R-opaquearg", cl.span());
+                        done = true;
+                    }
+                }
+                if done {
+                    return;
+                }
+            }
+        }
         if self.cfg.ralloc {
             let f = norm(&self.sf.slice(self.r(c.func.span())).to_string());
             if f == "Vec::with_capacity" || f == "VecDeque::with_capacity" {
